@@ -50,6 +50,7 @@ using Space = TbfHilbertSpaceIndex<Dim, Conf, false>;
 constexpr bool Per = (ORDERV == 1);
 constexpr long NbData = Dim + 2;
 struct Acc { long cnt; long sum; };
+constexpr long BIGW = (1L << 40) + 1;      // weight of a particle index in the second result value: exceeds the mantissa of float
 
 template <class RealType_T, class SpaceIndexType_T>
 class CountKernel {
@@ -58,19 +59,19 @@ public:
     using SpacialConfiguration = TbfSpacialConfiguration<RealType, SpaceIndexType::Dim>;
     explicit CountKernel(const SpacialConfiguration&){}
     CountKernel(const CountKernel&) = default;
-    template <class S, class P, class L> void P2M(const S&, const long int idx[], const P&, const long int n, L& leaf) const { leaf.cnt += n; for(long i = 0; i < n; ++i) leaf.sum += idx[i]; }
+    template <class S, class P, class L> void P2M(const S&, const long int idx[], const P&, const long int n, L& leaf) const { leaf.cnt += n; for(long i = 0; i < n; ++i) leaf.sum += idx[i] * BIGW; }
     template <class S, class C, class Cell> void M2M(const S&, const long int, const C& low, Cell& up, const long int[], const long int n) const { for(long i = 0; i < n; ++i){ up.cnt += low[i].get().cnt; up.sum += low[i].get().sum; } }
     template <class S, class C, class Cell> void M2L(const S&, const long int, const C& src, const long int[], const long int n, Cell& out) const { for(long i = 0; i < n; ++i){ out.cnt += src[i].get().cnt; out.sum += src[i].get().sum; } }
     template <class S, class Cell, class C> void L2L(const S&, const long int, const Cell& up, C& low, const long int[], const long int n) const { for(long i = 0; i < n; ++i){ low[i].get().cnt += up.cnt; low[i].get().sum += up.sum; } }
     template <class S, class L, class V, class R> void L2P(const S&, const L& leaf, const long int[], const V&, R& rhs, const long int n) const {
         if constexpr(NRHS == 2){ for(long i = 0; i < n; ++i){ rhs[0][i] += leaf.cnt; rhs[1][i] += leaf.sum; } } }
     template <class S, class V, class R> void P2P(const S&, const long int i1[], const V&, R& r1, const long int n1, const S&, const long int i2[], const V&, R& r2, const long int n2, const long) const {
-        if constexpr(NRHS == 2){ long s1 = 0, s2 = 0; for(long j = 0; j < n1; ++j) s1 += i1[j]; for(long i = 0; i < n2; ++i) s2 += i2[i];
+        if constexpr(NRHS == 2){ long s1 = 0, s2 = 0; for(long j = 0; j < n1; ++j) s1 += i1[j] * BIGW; for(long i = 0; i < n2; ++i) s2 += i2[i] * BIGW;
             for(long i = 0; i < n2; ++i){ r2[0][i] += n1; r2[1][i] += s1; } for(long j = 0; j < n1; ++j){ r1[0][j] += n2; r1[1][j] += s2; } } }
     template <class S1, class V1, class S2, class V2, class R> void P2PTsm(const S1&, const long int i1[], const V1&, const long int n1, const S2&, const long int[], const V2&, R& r2, const long int n2, const long) const {
-        if constexpr(NRHS == 2){ long s1 = 0; for(long j = 0; j < n1; ++j) s1 += i1[j]; for(long i = 0; i < n2; ++i){ r2[0][i] += n1; r2[1][i] += s1; } } }
+        if constexpr(NRHS == 2){ long s1 = 0; for(long j = 0; j < n1; ++j) s1 += i1[j] * BIGW; for(long i = 0; i < n2; ++i){ r2[0][i] += n1; r2[1][i] += s1; } } }
     template <class S, class V, class R> void P2PInner(const S&, const long int idx[], const V&, R& r, const long int n) const {
-        if constexpr(NRHS == 2){ long s = 0; for(long i = 0; i < n; ++i) s += idx[i]; for(long i = 0; i < n; ++i){ r[0][i] += n - 1; r[1][i] += s - idx[i]; } } }
+        if constexpr(NRHS == 2){ long s = 0; for(long i = 0; i < n; ++i) s += idx[i] * BIGW; for(long i = 0; i < n; ++i){ r[0][i] += n - 1; r[1][i] += s - idx[i] * BIGW; } } }
 };
 using Kern = CountKernel<Real, Space>;
 template <class T> struct TgtLeaves { T& t; template <class F> void applyToAllLeaves(F&& f){ t.applyToAllLeavesTarget(f); } };
@@ -117,7 +118,7 @@ int main(int argc, char** argv){
         if(AUTOBS && it % 2){ setenv("TBFMM_BLOCK_SIZE", std::to_string(1 + it % 5).c_str(), 1); } else unsetenv("TBFMM_BLOCK_SIZE");
         std::ostringstream ks; ks << cfg << "-seed" << seed << "-it" << it << "-h" << H << "-n" << N << "-bs" << bs << "-og" << ogpp; const std::string key = ks.str();
         rep.scenarios++;
-        long sumAll = 0; for(long i = 0; i < N; ++i) sumAll += i;
+        long sumAll = 0; for(long i = 0; i < N; ++i) sumAll += i * BIGW;
 #if EXECV == 2
         PosVec tpos = gen(1 + (long)(rng() % 9));
         using Tree = TbfTreeTsm<Real, Data, NbData, long, NRHS, Acc, Acc, Space>;
@@ -156,8 +157,11 @@ int main(int argc, char** argv){
         fullPass();
         auto checkResults = [&](long passes, const char* what){
             if constexpr(NRHS == 2) tree.applyToAllLeaves([&](auto&& h, const long* idx, auto, auto rhs){ for(long i = 0; i < h.nbParticles; ++i){
-                const long expc = passes * (N * images - 1), exps = passes * (sumAll * images - idx[i]);
+                const long expc = passes * (N * images - 1), exps = passes * (sumAll * images - idx[i] * BIGW);
                 rep.ok("ExactlyOnce", key, rhs[0][i] == expc && rhs[1][i] == exps, std::string(what) + ": particle " + std::to_string(idx[i]) + " received count " + std::to_string(rhs[0][i]) + " expected " + std::to_string(expc)); } });
+            if constexpr(NRHS == 2){ auto out = tree.getAllParticlesRhs();
+                for(long i = 0; i < N; ++i) rep.ok("Export", key, out[i][0] == passes * (N * images - 1) && out[i][1] == passes * (sumAll * images - i * BIGW),
+                       std::string(what) + ": getAllParticlesRhs entry " + std::to_string(i) + " does not hold the results of the particle inserted at that position"); }
         };
         checkResults(1, "after one execution");
         { auto d = tree.getAllParticlesData(); bool same = true; for(long i = 0; i < N; ++i) for(long v = 0; v < NbData; ++v) if(std::memcmp(&d[i][v], &pos[i][v], sizeof(Data)) != 0 && !(double(d[i][v]) == double(pos[i][v]))) same = false;
